@@ -48,10 +48,10 @@ def case_key(c):
                       separators=(",", ":"))
 
 
-def model_family(chk, fam, L, workers):
+def model_family(chk, fam, L, workers, grow_extra="{}"):
     cfg = os.path.join(chk.work, "mc_%s.cfg" % fam)
     with open(cfg, "w") as f:
-        f.write('CONSTANTS\n  Family = "%s"\n  L = %d\n  Grow <- MCGrow\n  ProbeGrow <- MCProbeGrow\n' % (fam, L))
+        f.write('CONSTANTS\n  Family = "%s"\n  L = %d\n  GrowExtra = %s\n  Grow <- MCGrow\n  ProbeGrow <- MCProbeGrow\n' % (fam, L, grow_extra))
         f.write("INIT MCInit\nNEXT Next\nINVARIANTS %s\nCHECK_DEADLOCK FALSE\n" % INVARIANTS)
     res = core.run_tlc("IoHelpers_MC.tla", cfg, workers=workers, timeout=3000, xmx="6g",
                        metadir=os.path.join(chk.work, "md_mc_%s_%d" % (fam, os.getpid())))
@@ -318,7 +318,9 @@ def _run(chk, tier):
     behaviours = []
     per_family = {}
     with ThreadPoolExecutor(max_workers=3) as ex:
-        futs = [(fam, L, ex.submit(model_family, chk, fam, L, 8 if fam == "rte" else 3)) for fam, L in fams]
+        # thorough: the allocator may also hand out one byte / 32 bytes more than asked (rte2, rtsbig)
+        futs = [(fam, L, ex.submit(model_family, chk, fam, L, 8 if fam == "rte" else 3,
+                                   "{1, 32}" if tier == "thorough" and fam in ("rte2", "rtsbig") else "{}")) for fam, L in fams]
         for fam, L, fu in futs:
             res, beh = fu.result()
             chk.add_tlc(res)
